@@ -71,7 +71,7 @@ MANIFEST = dict(
          "Column names: what a column is called must not matter - group_by and other columns carry names of the "
          "layout family's name family and the other columns hold repeated values, so a suppression reaching a column "
          "not named in group_by shows; group_by columns named like a polars selector ('*', '^...$') are covered only "
-         "where rtflite renders them at all (one level, a self-matching name, a single page). "
+         "since the repair D46 at every level, with page starts inside the frame and over several pages (documents: plain layout). "
          "A null original renders as blank like a suppressed cell, so fill-down cannot (for any renderer) "
          "recover a null below a non-null value; the theorem says exactly that.",
     technique="Lean 4 proof (index-wise reasoning over column expressions, induction over rows) + differential "
@@ -309,10 +309,13 @@ def _draw_names(rng, roles, gb_roles, selector_gb, raw_ok=True, banned=()):
     `selector_gb` (then the single group_by role gets a self-matching selector)"""
     names = {}
     kinds = []
+    pool = [x for x in SELF_SELECTORS if raw_ok or "\\" not in x]
+    rng.shuffle(pool)
     for r in roles:
-        if r in gb_roles and selector_gb:
-            # a name with a backslash is RTF-active where a header shows the names (like laygen's raw-rtf kind)
-            names[r] = rng.choice([x for x in SELF_SELECTORS if raw_ok or "\\" not in x])
+        if r in gb_roles and selector_gb and pool:
+            # a name with a backslash is RTF-active where a header shows the names (like laygen's raw-rtf kind);
+            # every level gets a selector of its own (since the repair D46 any number of levels and pages)
+            names[r] = pool.pop()
             kinds.append("selector-self@group")
     for r in roles:
         if r in names:
@@ -341,7 +344,7 @@ def _draw_names(rng, roles, gb_roles, selector_gb, raw_ok=True, banned=()):
 def gen_named_case(rng):
     base = gen_random_case(rng, collision=False)
     L = len(base["gb"])
-    selector_gb = L == 1 and rng.random() < 0.5
+    selector_gb = rng.random() < 0.5
     by = dict((c[0], c[1]) for c in base["cols"])
     n = len(by["g0"])
     roles = [f"g{l}" for l in range(L)] + [f"o{j}" for j in range(rng.randint(1, 3))]
@@ -353,7 +356,7 @@ def gen_named_case(rng):
     names, kinds = _draw_names(rng, roles, set(base["gb"]), selector_gb)
     rng.shuffle(roles)
     starts = base["starts"]
-    if selector_gb:      # no page start inside the frame (see above); out-of-range ones must be ignored
+    if selector_gb and rng.random() < 0.2:      # an out-of-range page start must be ignored
         starts = [[], [n + rng.randint(0, 3)]]
     return dict(level="unit", stream="names", cols=[[names[r], by[r]] for r in roles],
                 gb=[names[g] for g in base["gb"]], starts=starts, kind=base["kind"], name_kinds=kinds)
@@ -369,6 +372,13 @@ def named_fixed_cases():
                         kind="contig", name_kinds=["selector-self@group"]))
         out.append(dict(level="unit", stream="names", cols=[["^x$", o], ["VAL", v], [nm, g]], gb=[nm], starts=[[], [7]],
                         kind="contig", name_kinds=["selector-self@group", "selector-regex@other"]))
+        # page starts inside the frame and a second selector-named level (the class of defect D46, repaired)
+        out.append(dict(level="unit", stream="names", cols=[[nm, g], ["ARMCD", o], ["VAL", v]], gb=[nm],
+                        starts=[[], [2], [1, 4], [3, 5]], kind="contig", name_kinds=["selector-self@group"]))
+        other = "^ARM.*$" if nm != "^ARM.*$" else "*"
+        out.append(dict(level="unit", stream="names", cols=[[nm, g], [other, o], ["ARMCD", v]], gb=[nm, other],
+                        starts=[[], [2], [1, 4]], kind="contig",
+                        name_kinds=["selector-self@group", "selector-regex@group"]))
     for gb in (["g0"], ["g0", "g1"], ["g0", "g1", "g2"]):
         cols = [[c, g] for c in gb] + [["*", o], ["^g.*$", o], ["^.*$", v], ["", o], ["G0", o], ["g", o]]
         out.append(dict(level="unit", stream="names", cols=cols, gb=gb, starts=[[], [1, 4], [2]], kind="contig",
@@ -584,7 +594,7 @@ def gen_named_doc(rng, tier, k):
     case = gen_doc(rng, tier, k)
     spec, exp = case["spec"], case["exp"]
     L, n = exp["L"], exp["n"]
-    selector_gb = L == 1 and rng.random() < 0.6
+    selector_gb = rng.random() < 0.6
     cols, rows = spec["df"]["cols"], spec["df"]["rows"]
     keep = [c for c in cols if c in ("p0", "s0")]
     extra = [f"o{j}" for j in range(rng.randint(1, 2))]
@@ -599,7 +609,8 @@ def gen_named_doc(rng, tier, k):
     ren = lambda c: names.get(c, c)      # noqa: E731
     removed = {c for c in keep if c not in exp["displayed"]}
     if selector_gb:
-        spec["page"]["nrow"] = n + 20 + rng.randint(0, 20)
+        if rng.random() < 0.3:
+            spec["page"]["nrow"] = n + 20 + rng.randint(0, 20)      # a single page; otherwise as drawn (since D46)
         if exp["strategy"] != "plain":        # new_page / subline headings start pages: only the plain layout has one
             for key in ("page_by", "subline_by", "new_page", "pageby_row"):
                 spec["body"].pop(key, None)
